@@ -111,4 +111,27 @@ common.dump_ndjson(p, recs12)
 res = tlc.run("Crystal.tla", "Crystal.cfg", env={"TRACE_FILE": p, "MODE": "C12", "SYMDATA": symdata, "REFGROUPS": refgroups})
 say("Crystal(C12) one recorded std_mapping_to_primitive entry redirected in tid", v["tid"], "(sg %d) ->" % v["sg"], res.printed("FAIL"))
 
+# ---------------------------------------------------------------- TraceBestBasis (growth module, hosted by C04)
+from matid.core.periodicfinder import PeriodicFinder  # noqa: E402
+
+from mv import bestbasis  # noqa: E402
+
+rng = common.rng_for("binding-bestbasis")
+fb = PeriodicFinder()
+cases = [([(1, 0, 0), (0, 1, 0), (0, 0, 1), (1, 1, 0)], [1, 1, 1, 1]), ([(0, 1, 1), (1, 0, 1), (1, 1, 0), (1, 1, 1)], [30, 30, 30, 30]),
+         ([(1, 0, 0), (0, 2, 0)], [1, 1]), ([(1, 0, 0), (2, 0, 0)], [1, 1])]
+rb = [bestbasis.execute(fb, sp, me, rng) for sp, me in cases]
+for k, r in enumerate(rb):
+    r["tid"] = k + 1
+p = os.path.join(d, "bb.ndjson")
+common.dump_ndjson(p, rb)
+res = tlc.run("TraceBestBasis.tla", "TraceBestBasis.cfg", env={"TRACE_FILE": p})
+say("TraceBestBasis unmodified calls ->", res.printed("FAIL"), "answers", [r["res"] for r in rb])
+rb[0]["res"] = [1, 2, 4]  # a coplanar triple recorded instead of the code's answer
+rb[1]["res"] = [1, 2, 4]  # an admissible triple of twice the smallest volume
+rb[2]["res"] = [1]        # one span where two independent ones are available
+common.dump_ndjson(p, rb)
+res = tlc.run("TraceBestBasis.tla", "TraceBestBasis.cfg", env={"TRACE_FILE": p})
+say("TraceBestBasis three recorded answers replaced (coplanar triple / double volume / one span of two) ->", res.printed("FAIL"))
+
 open(os.path.join(common.ROOT, "tools", "binding_demo.log"), "w").write("\n".join(out) + "\n")
